@@ -200,6 +200,7 @@ type Report struct {
 	SampleInputs []string
 	PathsTruncated bool
 	ViolationCount int
+	SymbolicPaths  int
 	Samples      []PathSample
 	samplePending int
 }
@@ -423,6 +424,9 @@ func (p *Program) Explore(h *Harness) *Report {
 			rep.Asserts += e.nAsserts
 			rep.TrivialAsserts += e.nTrivial
 			rep.Decisions += len(e.trace)
+			if len(e.trace) > 0 || len(e.pcs) > 0 {
+				rep.SymbolicPaths++
+			}
 			if len(e.inputs) > rep.Inputs {
 				rep.Inputs = len(e.inputs)
 			}
